@@ -403,6 +403,13 @@ fn deallocate_list(to_deallocate_list: LinkedList, state: &State) {
         list: ManuallyDrop::new(to_deallocate_list),
     };
 
+    // Set every object as dropped before running any destructor, so that weak pointers to objects
+    // of the list cannot be upgraded from destructors (it's UB to access those Ccs from there)
+    #[cfg(feature = "weak-ptrs")]
+    to_deallocate_list.iter().for_each(|ptr| {
+        unsafe { ptr.as_ref() }.counter_marker().set_dropped(true);
+    });
+
     // Drop every CcBox before deallocating them (see comment below)
     to_deallocate_list.iter().for_each(|ptr| {
         // SAFETY: ptr is valid to access and drop in place
